@@ -19,7 +19,7 @@ PROPS = {
     "C01": dict(kind="lib", level="exploration", modes=[("c01", 12000, 180000)], floor=500,
                 rule="seeded random models (2-7 variables incl. literals, sparse/negative domains, views, every constraint kind, half/full reification) x random SolverOptions x random brancher x one of 5 result paths (satisfy, iterator, assumptions, both optimisers with callbacks); non-trivial = the run handed out >=1 solution and had >=1 conflict or non-root propagation; distinct = distinct (model, sub-seed) fingerprints"),
     "C02": dict(kind="lib", level="exploration", modes=[("c02", 12000, 180000)], floor=500,
-                rule="seeded random models biased to the phase transition; verdict of satisfy vs enumerator, post-time errors vs prefix model, every Learned hook event vs the solution set, poll budget; non-trivial = >=1 conflict or non-root propagation"),
+                rule="seeded random models biased to the phase transition, 5% deep-chain models (0-1 implication chain of 507-540 links with clauses over variables planted 495-505 links apart, solved under 4 learning configurations); verdict of satisfy vs enumerator, post-time errors vs prefix model, every Learned hook event vs the solution set, poll budget; non-trivial = >=1 conflict or non-root propagation"),
     "C03": dict(kind="lib", level="exploration", modes=[("c03", 8000, 120000)], floor=500,
                 rule="seeded random models; full iteration (35% of cases: iterator dropped after k solutions and a new one started) compared with the enumerator's solution set; non-trivial = >=2 solutions or >=1 conflict"),
     "C04": dict(kind="lib", level="exploration", modes=[("c04", 8000, 120000)], floor=500,
@@ -29,13 +29,13 @@ PROPS = {
     "C12": dict(kind="lib", level="exploration", modes=[("c12", 12000, 180000)], floor=500,
                 rule="seeded random models; after every posting prefix the reported bounds of every variable, 3 random views and literal values are compared with the hull of the prefix model's solutions; non-trivial = some prefix tightened a bound"),
     "C07": dict(kind="lib", level="exploration", modes=[("c07", 3000, 36000)], floor=150, case_timeout=90,
-                rule="seeded models near the phase transition, each solved under K configurations (quick 8, thorough 40: resolver, minimisation, restart sequence/intervals/coefficients, learned-nogood limits/threshold/sorting, tiny max activity, seed, brancher); solution set of every configuration compared with the enumerator; non-trivial = some configuration had >=3 conflicts"),
-    "C08": dict(kind="lib", level="exploration", modes=[("c08", 1800, 2400)], floor=300, case_timeout=10,
+                rule="seeded models near the phase transition, each solved under K configurations (quick 8, thorough 40: resolver, minimisation, restart sequence/intervals/coefficients, learned-nogood limits/threshold/sorting, tiny max activity, seed, brancher); solution set of every configuration compared with the enumerator; 10% deep-chain models (implication chain of 507-540 links) on which every configuration answers satisfiability and the optimum of a counting variable (fresh solver or the one that has just answered satisfy); non-trivial = some configuration had >=3 conflicts"),
+    "C08": dict(kind="lib", level="exploration", modes=[("c08", 5400, 7200)], floor=900, case_timeout=10,
                 rule="cumulative models (70% canonical, 30% extended regime: zero durations/usages, usage > capacity, negative starts, scaled views, repeated variables, holes) with side constraints; quick: 6 option tuples per model walking the 144-tuple space with stride 37 so that a run covers all 144, thorough: all 144 per model; solution set vs time-point definition, explanation judge on every cumulative event; non-trivial = >=2 solutions or cumulative events observed"),
     "C09": dict(kind="lib", level="exploration", modes=[("c09", 12600, 126000)], floor=500,
                 rule="one constraint of each of 21 kinds posted as implied_by / reify / negation with the literal free, true or false at posting time, plus side constraints; input-order branchers over random permutations with random value selectors, and the default brancher; solution set vs (r -> c), (r <-> c), complement; non-trivial = >=2 solutions or >=1 conflict"),
     "C17": dict(kind="lib", level="exploration", modes=[("c17", 12000, 120000)], floor=500, case_timeout=10,
-                rule="seeded random models with every constraint tagged; hook events Propagation / Conflict / AnalysisReason judged for sufficiency against the tagged constraint's tuple table (untagged nogood events against the model's solution set) and for truth in the state in which the reason is given; non-trivial = >=1 reason checked and >=1 conflict or non-root propagation"),
+                rule="seeded random models with every constraint tagged (1/4 arithmetic over sign-mixed domains, 1/8 cumulative models with 2-3 disjoint full profiles and wide tasks that are cut at several profiles in one pass); hook events Propagation / Conflict / AnalysisReason judged for sufficiency against the tagged constraint's tuple table (untagged nogood events against the model's solution set) and for truth in the state in which the reason is given; non-trivial = >=1 reason checked and >=1 conflict or non-root propagation"),
     "C18": dict(kind="lib", level="exploration", modes=[("c18", 9240, 92400)], floor=500, exhaustive=True,
                 rule="index i -> (variable selector, value selector) = i mod 154 over the full 11 x 14 matrix, brancher shape (i div 154) mod 5 in {independent, dynamic, alternating, autonomous backup, default}; models with holes, negative values, size-2 domains; half of the runs under random restart/learning options; Decision / NoDecision hook events judged; non-trivial = >=2 decisions"),
     "C10": dict(kind="lib", level="exploration", modes=[("c10", 9000, 120000)], floor=500,
